@@ -5,6 +5,7 @@ import (
 	"encoding/base32"
 	"fmt"
 	"net/url"
+	"os"
 	"runtime"
 	"sort"
 	"strings"
@@ -16,6 +17,8 @@ import (
 )
 
 const workCap = 400_000
+
+var raceBuild = os.Getenv("VERIF_VARIANT") == "race"
 
 // ---------------------------------------------------------------------------
 // arenas: [canary | data | spare capacity (canary) | canary]
@@ -52,6 +55,24 @@ func newArena(f Field, salt int) *arena {
 	}
 	a.snap = append([]byte(nil), a.buf...)
 	return a
+}
+
+// newAdjacent places two fields back to back in one array: the capacity of the
+// first reaches over the data of the second (legal for a caller: two sub-slices
+// of one receive buffer).
+func newAdjacent(f1, f2 Field, salt int) (*arena, *arena) {
+	n1, n2 := len(f1.Data), len(f2.Data)
+	pre, post := 16, 48
+	buf := make([]byte, pre+n1+n2+post)
+	for i := range buf {
+		buf[i] = byte(0x5A^(i*11+salt)) | 1
+	}
+	copy(buf[pre:], f1.Data)
+	copy(buf[pre+n1:], f2.Data)
+	snap := append([]byte(nil), buf...)
+	a1 := &arena{buf: buf, snap: snap, s: buf[pre : pre+n1 : len(buf)]}
+	a2 := &arena{buf: buf, snap: snap, s: buf[pre+n1 : pre+n1+n2 : len(buf)]}
+	return a1, a2
 }
 
 //go:norace
@@ -247,11 +268,15 @@ func (e *env) prepare(c *Call, salt int) *prepared {
 			p.cfg = p.suite.Config()
 			p.cfgOK = true
 		}()
-		for i := range c.In {
+		for i := 0; i < len(c.In); i++ {
 			f := c.In[i]
-			if f.Shared > 0 && f.Shared-1 < len(e.sharedArenas) {
+			switch {
+			case f.Shared > 0 && f.Shared-1 < len(e.sharedArenas):
 				p.arenas[i] = e.sharedArenas[f.Shared-1]
-			} else {
+			case f.Shape == 4 && i+1 < len(c.In) && c.In[i+1].Shared == 0:
+				p.arenas[i], p.arenas[i+1] = newAdjacent(f, c.In[i+1], salt*5+i)
+				i++
+			default:
 				p.arenas[i] = newArena(f, salt*5+i)
 			}
 		}
@@ -332,6 +357,17 @@ func (e *env) prepCode(p *prepared) {
 			case 5:
 				txt = strings.Replace(txt, "%3A", "", 1)
 				txt = strings.Replace(txt, ":", "", 2)
+			case 6, 7: // opaque form (no authority): otpauth:totp/Label?...
+				txt = strings.Replace(txt, "otpauth://", "otpauth:", 1)
+			case 8:
+				txt = strings.Replace(txt, "otpauth://", "OTPAUTH://", 1)
+				txt = strings.Replace(txt, "://totp/", "://TOTP/", 1)
+			case 9:
+				txt = strings.Replace(txt, "otpauth://", "otpauth://user:pw@", 1) + "#frag"
+			case 10:
+				txt = strings.Replace(txt, "?", "/extra%2Fseg?", 1)
+			case 11:
+				txt = txt + "&digits=7&period=0&secret=&issuer=Other"
 			}
 			pu, err := url.Parse(txt)
 			if err != nil {
@@ -346,6 +382,24 @@ func (e *env) prepCode(p *prepared) {
 // exec performs the call. It runs inside a task goroutine during the
 // concurrent phase: no fmt, no locks, nothing that synchronises with other tasks.
 func (p *prepared) exec() (r result) {
+	if p.c.Repeat > 1 {
+		n := p.c.Repeat
+		if raceBuild && n > 1100 {
+			n = 1100 // the race build is ~10x slower per call
+		}
+		switch p.c.Op {
+		case "GenerateHOTP", "GenerateTOTP", "GenerateOCRA", "ValidateHOTP", "ValidateTOTP", "ValidateOCRA", "NewRawSuite", "DecodeSecret", "ListSuites":
+			for i := 1; i < n; i++ {
+				verifrt.ResetMeter(workCap)
+				_ = p.exec1()
+			}
+			verifrt.ResetMeter(workCap)
+		}
+	}
+	return p.exec1()
+}
+
+func (p *prepared) exec1() (r result) {
 	c := p.c
 	defer func() {
 		if v := recover(); v != nil {
@@ -825,7 +879,7 @@ func Run(pl *Plan, logOn bool) (*verifh.Violation, *runInfo) {
 	}
 	readerStart := rd.Pos
 	verifrt.PoolSimStart(verifrt.PoolConfig{Dec: pl.Pool.Dec, Poison: pl.Pool.Poison, PoisonSeed: pl.Pool.PoisonSeed, MissW: pl.Pool.MissW, DropW: pl.Pool.DropW})
-	verifrt.SchedStart(verifrt.SchedConfig{Tasks: total, After: pl.Sched.After, To: pl.Sched.To, Hot: pl.Sched.Hot, HotSites: pl.Sched.HotSites, Trace: logOn})
+	verifrt.SchedStart(verifrt.SchedConfig{Tasks: total, After: pl.Sched.After, To: pl.Sched.To, Hot: pl.Sched.Hot, HotSites: pl.Sched.HotSites, HotReader: pl.Sched.HotReader, Trace: logOn})
 	for _, t := range tasks {
 		go e.taskBody(t)
 	}
